@@ -311,3 +311,20 @@ func (r *Recorder) Fail(t TB, test, sig string, err error, c any) {
 	p := SaveReplay(r.Prop, test, sig, err, c)
 	t.Fatalf("VERIF-FAIL property=%s test=%s sig=%s replay=%s: %v", r.Prop, test, sig, p, err)
 }
+
+// Journal writes the case about to be executed to $VERIF_JOURNAL_DIR so that the
+// driver can recover it if the process dies (panic in a library goroutine).
+func Journal(prop, test string, c any) {
+	dir := os.Getenv("VERIF_JOURNAL_DIR")
+	if dir == "" {
+		return
+	}
+	raw, err := json.Marshal(c)
+	if err != nil {
+		return
+	}
+	rp := Replay{Property: prop, Test: test, Sig: "process-crash", Error: "the worker process died while executing this case", Case: raw}
+	b, _ := json.Marshal(rp)
+	p := filepath.Join(dir, fmt.Sprintf("%s-%s-%d.json", prop, sanitize(test), os.Getpid()))
+	_ = os.WriteFile(p, b, 0o644)
+}
